@@ -145,7 +145,26 @@ def strat_assign():
             ok = all(pts[i + 1][0] > pts[i][0] for i in range(len(pts) - 1))
             if not ok:
                 pts = [pts[0], (pts[0][0] + max(2.0, x1 - x0), pts[0][1])]
-            lines.append(dict(mode=mode, baseline=pts, heights=(float(draw(st.integers(5, 30))), float(draw(st.integers(2, 10))))))
+            # lines of rotated passes run right to left or along the vertical axis
+            orient = draw(st.sampled_from(["ltr", "ltr", "ltr", "rtl", "vertical_down", "vertical_up"]))
+            if orient == "rtl":
+                pts = pts[::-1]
+            elif orient.startswith("vertical") and mode in ("inside", "cross", "span"):
+                # a vertical chord through the region's bounding box at a drawn x
+                xv = draw(st.floats(min(xs) + 3, max(xs) - 3, allow_nan=False)) if max(xs) - min(xs) > 8 else (min(xs) + max(xs)) / 2
+                if integer:
+                    xv = float(round(xv))
+                ext = 0 if mode == "inside" else draw(st.integers(15, 60))
+                y_lo, y_hi = min(ys) + (6 if mode == "inside" else -ext), max(ys) - (6 if mode == "inside" else -ext)
+                if y_hi - y_lo > 4:
+                    pts = [(xv, y_lo + (y_hi - y_lo) * k / (npts - 1)) for k in range(npts)]
+                    if integer:
+                        pts = [(float(round(px)), float(round(py))) for px, py in pts]
+                    if not all(pts[i + 1][1] > pts[i][1] for i in range(len(pts) - 1)):
+                        pts = [pts[0], (pts[0][0], pts[0][1] + max(3.0, y_hi - y_lo))]
+                    if orient == "vertical_up":
+                        pts = pts[::-1]
+            lines.append(dict(mode=mode, orient=orient, baseline=pts, heights=(float(draw(st.integers(5, 30))), float(draw(st.integers(2, 10))))))
         return dict(regions=regs, lines=lines)
     return case()
 
